@@ -660,6 +660,16 @@ static void inherit_flags(Token *tok, Token *macro_token, bool is_empty) {
   tok->has_space = macro_token->has_space;
 }
 
+#ifdef CHIBICC_VERIF
+// H3: a hide set as a JSON list of macro names.
+static char *vt_hideset(Hideset *hs) {
+  char *s = "[";
+  for (; hs; hs = hs->next)
+    s = format("%s%s\"%s\"", s, s[1] ? "," : "", hs->name);
+  return format("%s]", s);
+}
+#endif
+
 // If tok is a macro, expand it and return true.
 // Otherwise, do nothing and return false.
 static bool expand_macro(Token **rest, Token *tok) {
@@ -674,6 +684,10 @@ static bool expand_macro(Token **rest, Token *tok) {
   if (m->handler) {
     *rest = m->handler(tok);
     (*rest)->next = tok->next;
+#ifdef CHIBICC_VERIF
+    if (vtrace_on())
+      vtrace("\"e\":\"exp\",\"k\":\"dyn\",\"m\":\"%s\",\"hin\":%s", m->name, vt_hideset(tok->hideset));
+#endif
     return true;
   }
 
@@ -685,6 +699,11 @@ static bool expand_macro(Token **rest, Token *tok) {
       t->origin = tok;
     *rest = append(body, tok->next);
     inherit_flags(*rest, tok, body->kind == TK_EOF);
+#ifdef CHIBICC_VERIF
+    if (vtrace_on())
+      vtrace("\"e\":\"exp\",\"k\":\"obj\",\"m\":\"%s\",\"hin\":%s,\"hout\":%s",
+             m->name, vt_hideset(tok->hideset), vt_hideset(hs));
+#endif
     return true;
   }
 
@@ -712,6 +731,15 @@ static bool expand_macro(Token **rest, Token *tok) {
     t->origin = macro_token;
   *rest = append(body, tok->next);
   inherit_flags(*rest, macro_token, body->kind == TK_EOF);
+#ifdef CHIBICC_VERIF
+  if (vtrace_on()) {
+    int nargs = 0;
+    for (MacroArg *ap = args; ap; ap = ap->next)
+      nargs++;
+    vtrace("\"e\":\"exp\",\"k\":\"fun\",\"m\":\"%s\",\"hin\":%s,\"hrp\":%s,\"hout\":%s,\"nargs\":%d",
+           m->name, vt_hideset(macro_token->hideset), vt_hideset(rparen->hideset), vt_hideset(hs), nargs);
+  }
+#endif
   return true;
 }
 
